@@ -79,6 +79,13 @@ def body(case, env):
     if any(n.startswith('e2fsck -fy') and n != 'e2fsck -fyD' for n, v in steps):
         try: corrupt.apply_summary(img, [(0, case['seed'] % 5, 3, 5, False), (2, case['seed'] % 3, 0, 1, False)])
         except Exception: pass
+        if case['seed'] % 2 and '^has_journal' not in cfg['features'] and cfg['fstype'] != 'ext2':
+            # a committed transaction waiting in the journal (e2fsck replays it, closes and RESTARTS with a fresh open) plus damage outside the replayed blocks for the second pass
+            try:
+                sbf = tool.sb_fields(img); tgt = sbf['nblocks'] - 3 - case['seed'] % 50
+                tp.dbg(img, ['jo', 'jw -b %d %s' % (tgt, os.path.join(env['blobs'], 'small')), 'jc', 'sif /mid links_count 7', 'sif /big links_count 3'], write=True)
+                classes.append('pre:journal-transaction+wrong-link-counts')
+            except Exception: pass
     # one case in four runs the recording tools with the bounce-buffer I/O path of unix_io (UNIX_IO_FORCE_BOUNCE, what direct I/O uses); when the chain starts with mke2fs the last
     # 40 KiB of the device hold junk instead of the zeroes of never-used blocks (mke2fs overwrites everything anyway; its 32 KiB undo blocks then reach across the device end)
     bounce = (case['seed'] // 7) % 4 == 3
